@@ -131,7 +131,31 @@ class Canon(ast.NodeTransformer):
         if n.orelse and isinstance(n.test, ast.UnaryOp) and isinstance(n.test.op, ast.Not) and not self._has_walrus(n.test):
             new = ast.If(test=n.test.operand, body=n.orelse, orelse=n.body)
             return ast.copy_location(new, n)
+        # if a: (if b: S)   ->   if a and b: S        (neither has an else branch; the inner `if` is the whole body)
+        if not n.orelse and len(n.body) == 1 and isinstance(n.body[0], ast.If) and not n.body[0].orelse and not self._has_walrus(n.test) and not self._has_walrus(n.body[0].test):
+            inner = n.body[0]
+            vals = [*(n.test.values if isinstance(n.test, ast.BoolOp) and isinstance(n.test.op, ast.And) else [n.test]), *(inner.test.values if isinstance(inner.test, ast.BoolOp) and isinstance(inner.test.op, ast.And) else [inner.test])]
+            new = ast.If(test=ast.copy_location(ast.BoolOp(op=ast.And(), values=vals), n.test), body=inner.body, orelse=[])
+            return ast.copy_location(new, n)
         return n
+
+    def visit_FunctionDef(self, n):
+        self.generic_visit(n)
+        # for i, x in enumerate(xs[, k]):  ->  for x in xs:      when the index is never read in the function
+        loads = {x.id for x in ast.walk(n) if isinstance(x, ast.Name) and isinstance(x.ctx, ast.Load)}
+        for f in ast.walk(n):
+            if (
+                isinstance(f, ast.For) and isinstance(f.iter, ast.Call) and isinstance(f.iter.func, ast.Name) and f.iter.func.id == "enumerate"
+                and 1 <= len(f.iter.args) <= 2 and not f.iter.keywords or
+                isinstance(f, ast.For) and isinstance(f.iter, ast.Call) and isinstance(f.iter.func, ast.Name) and f.iter.func.id == "enumerate"
+                and len(f.iter.args) == 1 and len(f.iter.keywords) == 1 and f.iter.keywords[0].arg == "start"
+            ):
+                if isinstance(f.target, ast.Tuple) and len(f.target.elts) == 2 and isinstance(f.target.elts[0], ast.Name) and f.target.elts[0].id not in loads and not isinstance(f.iter.args[0], ast.Starred):
+                    f.target = f.target.elts[1]
+                    f.iter = f.iter.args[0]
+        return n
+
+    visit_AsyncFunctionDef = visit_FunctionDef
 
     def visit_While(self, n):
         # while A: (if C: break); REST   ->   while A and not C: REST      (no else clause: a break would skip it)
